@@ -1,11 +1,24 @@
 (* C12 -- a program that assembles without compression also assembles with it.  Statements only (PARTIAL: see below). *)
 From Coq Require Import ZArith List String.
 From BB Require Import Base.PyBase Gen.Encoders Gen.Criteria Spec.RV32 Spec.RVC Spec.Operands Spec.Legal
-  Model.Items Model.Encode Model.Passes Proofs.Layout Proofs.Rules Proofs.RulesMain Proofs.Stable.
+  Model.Items Model.Encode Model.Passes Proofs.Layout Proofs.Rules Proofs.RulesMain Proofs.Stable Proofs.Examples.
 Import ListNotations.
 Open Scope Z_scope.
 
-(* The compression pass cannot introduce an encoding failure on a settled immediate: whenever a rule is selected the
+(* The FULL statement, for the model of the whole pipeline ... *)
+Definition C12_full : Prop :=
+  forall its consts labels, (exists r, assemble_items its consts labels false = Done r) ->
+                            exists r', assemble_items its consts labels true = Done r'.
+(* ... is REFUTED by the faithful model (and, replayed, by the real assembler -- known finding K1): a branch whose
+   target lies behind an `align` that absorbs what compression saves in front of the branch ends up FARTHER from its
+   target:  add / add / beq L / align 4096 / dw 0 / L:  is 4092 bytes away without compression, 4096 with it. *)
+Theorem C12_refuted : ~ C12_full.
+Proof.
+  intro H. destruct (H ex12 [] [] ex12_uncompressed_ok) as [r' Hr]. rewrite ex12_compressed_fails in Hr. discriminate.
+Qed.
+Print Assumptions C12_refuted.
+
+(* What IS proved.  The compression pass cannot introduce an encoding failure on a settled immediate: whenever a rule is selected the
    generated c.* encoder ACCEPTS the operands the construction row builds (for every register spelling and every
    integer immediate) ... *)
 Theorem C12_selected_rule_is_accepted_partial :
